@@ -14,7 +14,7 @@ CLAIMS = {
         'correctly iff no positional argument stands behind it, which is exactly when the insertion guard passes; the guard of args / bases slice edits passes iff everything the edit touches lies in '
         'front of the first keyword, where argument index = merged index (both tied by correspondence in the split-fields sweep). One element that needs its own parentheses stays ONE element '
         'through every single-element and one-element-slice entry point (deterministic sweep). '
-        'Handler glue is not proved (cross-check only). Deterministic sweeps: removal of every dispensable clause under every norm option and entry point; arguments._all with / and * markers x every window x new arguments of every category (category-sensitive), keyword-only defaults.',
+        'Handler glue is not proved (cross-check only). Deterministic sweeps: removal of every dispensable clause under every norm option and entry point; arguments._all with / and * markers x every window x new arguments of every category (category-sensitive), keyword-only defaults. Proved as well: the `/` and `*` markers re-derived from the categories of a parameter list make Python read every parameter in its category (models/ArgMarkers.v, tied to the text real put_slice writes).',
    note='Trusted: Coq kernel/vm_compute; py/py2v translator; CPython ast as reference; the view model is hand-written (tied by correspondence); '
         'refusal allow-list py/props/C03_refusals_allow.json. No axioms.',
    design='DESIGN.md section 4 C03'),
@@ -53,7 +53,7 @@ CLAIMS = {
         'its body has no bare set_options), on normal and exceptional exit, for any nesting; for EVERY interleaving each thread ends where it would end alone; fresh threads see the '
         'translated defaults; registry operations on different roots commute; validate-before-update / restore-in-finally hold of the regenerated effect lists. '
         'Partial (runtime): GIL atomicity and real preemption are exercised, not proved: 8 threads with switch interval 1e-6 vs the same scripts alone. Call isolation of cached answers and of '
-        'option VALUES (an `op` list / AST / FST reused across calls, blocks and set_options gives the result of a fresh equal value and is left unchanged) are deterministic sweeps.',
+        'option VALUES (an `op` list / AST / FST reused across calls, blocks and set_options gives the result of a fresh equal value and is left unchanged) are deterministic sweeps. An option value of one call never leaks into a later call with an equal-comparing value of another type (every value in several orders in one process vs a fresh process per value).',
    note='Trusted: Coq kernel/vm_compute; py2v/gen_options; validity of a value is an oracle bit (harness supplies the documented domain and cross-checks the implementation against it); '
         'hand model Options.v tied by lock-step correspondence over real threads. No axioms.',
    design='DESIGN.md section 4 C20'),
@@ -88,7 +88,7 @@ CLAIMS = {
         'put_line_comment may change only the addressed comment; the theorem predicates are also evaluated on the real leading_trivia outputs. Also proved: how the compact trivia option is read '
         '(models/TriviaParams.v == get_trivia_params over every option shape, exhaustive correspondence): a bare +N / -N means the side default kind (block leading, line trailing), the sides are '
         'independent, the default / shorthand trailing side selects only the line comment. Deterministic sweeps: option shorthands, docstr=False/strict string preservation, pure insertions into '
-        'multi-line sequences.',
+        'multi-line sequences. Deterministic: comments ending in a backslash above a removed statement; BoolOp operators written against the next operand; starred parameters deleted as single fields (recorded finding).',
    note='Trusted: Coq kernel/vm_compute; hand models Text.v and Trivia.v tied by correspondence; tokenize as token reference; container separators and grouping parentheses are '
         'ignored globally by the oracle (they may legitimately change anywhere in the edited container). No axioms.',
    design='DESIGN.md section 4 C04'),
@@ -99,7 +99,7 @@ CLAIMS = {
         'tree; views heal after external length changes. Partial: text-reading caches (bloc, pars), the a/f/parent/pfield link structure and object identity are decided by the '
         'oracle: after every successful edit of random scripts, 37 queries on sampled nodes are compared with a fresh FST(root.src), with and without 30 cache-warming queries '
         'before each edit, and both schedules must end in the identical source and tree; deterministic sweeps: every element of every list field deleted / inserted / replaced, every '
-        'leaf grown / shrunk, every node (un)parenthesized on layouts with children at the parent\'s column, keyword-glued parentheses and interleaved starred/keyword arguments.',
+        'leaf grown / shrunk, every node (un)parenthesized on layouts with children at the parent\'s column, keyword-glued parentheses and interleaved starred/keyword arguments. Deterministic: functions with docstrings spanning lines in every way put at other indentation under every docstr option; raw edits of a block\'s last statement ending in blanks / a continuation and a semicolon.',
    note='Trusted: Coq kernel/vm_compute; hand model Cache.v (tied to the real cache/flush set by correspondence); a fresh FST(root.src) as reference observer. No axioms.',
    design='DESIGN.md section 4 C02'),
  'C17': dict(
@@ -122,7 +122,7 @@ CLAIMS = {
         'at character starts and returns the containing character for interior bytes, and both are the identity on ASCII lines; the AST-position to loc conversion therefore is '
         'exact. Partial (no theorem): the text-scanning computed locations (_loc_arguments, _loc_comprehension, _loc_withitem, _loc_match_case, _loc_op, decorators), pars() and '
         'find_*loc are decided per node / per rectangle against CPython positions, tokenize boundaries, a token bracket matcher and a brute-force scan, with identifiers renamed '
-        'to multi-byte in 70% of the programs. A genuine defect found this way (find_contains_loc ignoring decorators) was repaired in /repo. The search loop of find_contains_loc (models/FindLoc.v: the walk over the descendants with its four cases) returns, on every tree whose children lie inside their parent in order without overlap, the lowest node that contains the span (2 theorems; tied to the method on encoded trees over node spans, their ends and random spans); bloc is compared with an independent token-based expectation for every node.',
+        'to multi-byte in 70% of the programs. A genuine defect found this way (find_contains_loc ignoring decorators) was repaired in /repo. The search loop of find_contains_loc (models/FindLoc.v: the walk over the descendants with its four cases) returns, on every tree whose children lie inside their parent in order without overlap, the lowest node that contains the span (2 theorems; tied to the method on encoded trees over node spans, their ends and random spans); bloc is compared with an independent token-based expectation for every node. Proved as well: allow_exact="top" returns the first node on the descent path whose location is exactly the span, False the node above it; the path is a chain of children holding the span. find_loc and the allow_exact variants are also compared with brute force.',
    note='Trusted: Coq kernel/vm_compute; hand model Bistr.v tied by correspondence; tokenize (with multi-line end columns recomputed) and ast byte offsets as reference. No axioms.',
    design='DESIGN.md section 4 C06'),
  'C08': dict(
@@ -132,7 +132,7 @@ CLAIMS = {
         'with whitespace); cut+put-back, put-own-slice and read-after-write laws of the slice semantics; replace-by-self / read-back / disjoint-paths laws on trees. Partial: that the concrete '
         'put/cut code realises those laws per field, code_as_* normalisation, own_src and the line-comment accessor are decided by oracles on the real implementation (cut slice/one and put back '
         'incl. Compare operators and virtual fields, replace by own copy / pure AST / own source, own_src re-parse, docstring and comment accessors with hostile texts). Two genuine defects '
-        'found this way were repaired in /repo; one is recorded as a known finding.',
+        'found this way were repaired in /repo; one is recorded as a known finding. Deterministic: every identifier of a program written with compatibility characters put back as its own source text.',
    note='Trusted: Coq kernel/vm_compute; hand model StrRepr.v tied by correspondence (model output == real output symbol by symbol, model reader == ast.literal_eval on the same literals); CPython parser as reference. No axioms.',
    design='DESIGN.md section 4 C08'),
  'C07': dict(
@@ -160,7 +160,7 @@ CLAIMS = {
         'pattern); a successful edit leaves the algebraic text splice. Partial: equality of the statement-level reparse with a whole-file parse, exceptions inside _put_src/_set_ast, root identity are decided '
         'by the oracle: random sequences of put_src(reparse) on/off node boundaries and across statements, raw node puts and reparse() with valid, invalid, indentation-changing and statement-splitting text; '
         'raise => source and ast.dump(with positions) unchanged and the splice is not a valid module; success => source == splice and tree == ast.parse incl. positions. Two defect families found this way '
-        'were repaired in /repo.',
+        'were repaired in /repo. Deterministic: header edits of ExceptHandler / match_case roots, also with header text that brings statements of its own.',
    note='Trusted: Coq kernel/vm_compute; translator py/py2v/gen_raweffects.py (fail-closed classification tables: which calls may raise / mutate live state / touch only the scratch copy); CPython parser as reference. No axioms.',
    design='DESIGN.md section 4 C10'),
  'C13': dict(
@@ -180,7 +180,7 @@ CLAIMS = {
         'skips the children but not the leave (5 theorems, tied to the real generator under random send() decisions). Partial: termination, '
         'leave/both under mutation (deterministic resend sweep: replace + send(True) at every leaving yield, walk root included) and scope variants, search/sub consumers, legality of real replace/remove (evaluated on every observed heap) and the final C01 are decided by the oracle: random walks with replace/remove '
         'of the current node, ancestors and siblings and send(), checking no raise, bounded steps, attached-and-reachable yields, no double entry, new children next, final re-parse. One defect '
-        '(scope walk of comprehensions used stale nodes) and later ones (see known_findings.json fixed lines) were repaired in /repo. send(True) at entry yields (enter / both, recurse on / off, with a replacement first) is followed by the node\'s (new) children, the node once on leaving, then the reference continuation.',
+        '(scope walk of comprehensions used stale nodes) and later ones (see known_findings.json fixed lines) were repaired in /repo. send(True) at entry yields (enter / both, recurse on / off, with a replacement first) is followed by the node\'s (new) children, the node once on leaving, then the reference continuation. Proved as well (models/WalkShallow.v): in a non-recursing both-walk send(True) at the entry yield of a child yields exactly its bracket. Deterministic: an optional single-node child removed while the walk stands in front of / inside it.',
    note='Trusted: Coq kernel/vm_compute; hand model WalkMut.v tied by correspondence on heaps observed from the real objects (children order from astutil.syntax_ordered_children, checked in C14); CPython parser. No axioms.',
    design='DESIGN.md section 4 C15'),
  'C16': dict(
@@ -192,7 +192,7 @@ CLAIMS = {
         'dictionaries, keys in order). Partial: agreement of the rule and of name '
         'classification with CPython is decided by the oracle: every scope of hand-written scope programs, the corpus and generated programs: node sets of walk(True, scope=True) vs the Coq walk on the encoded '
         'tree; scope_symbols(full=True) vs the symtable module (load, store+del, global, nonlocal, local, free; names restricted to those occurring in the scope because CPython 3.12 merges inlined '
-        'comprehensions). Two defects found (exception / pattern-capture names never reported; first-iterable names dropped under a filter) were repaired in /repo.',
+        'comprehensions). Two defects found (exception / pattern-capture names never reported; first-iterable names dropped under a filter) were repaired in /repo. Deterministic: the name `_` as a binding vs the wildcard; the scope walk\'s order against the plain walk; each scope_symbols dictionary independent of the optional ones requested.',
    note='Trusted: Coq kernel/vm_compute; hand models Scope.v and Symbols.v tied by correspondence (the events a node class contributes are re-derived by the harness); the encoder\'s outer/inner split per node class (the property\'s own list); CPython symtable. No axioms.',
    design='DESIGN.md section 4 C16'),
  'C18': dict(
@@ -213,7 +213,7 @@ CLAIMS = {
         'dotted path in source order (tied to as_(alias) / FST(ast, alias) / as_(_aliases) by correspondence). Partial: the remaining coercion routines and formatting are decided by '
         'the oracle: ~200 hand operands (every repeated element twice and three times, non-ASCII, parenthesized, multi-line) + corpus nodes x 40 target modes: operand untouched under copy=True, result of the requested kind, verifies and re-parses in that mode to itself, same names/constants, same '
         'kind unchanged, formatted vs pure-AST coercion agree, in-place == copy, coercing put == put of the converted node. Two defects repaired in /repo, one recorded as known finding (its wrong '
-        'behaviour is pinned by an existing snapshot test). Operands with redundant parentheses inside | chains in both directions.',
+        'behaviour is pinned by an existing snapshot test). Operands with redundant parentheses inside | chains in both directions. Operands also under pars_arglike=None, type parameters in orders arguments cannot have, pure-AST operands must stay as passed.',
    note='Trusted: Coq kernel/vm_compute; hand models Coerce.v and Alias.v tied by correspondence; FST(src, mode) (C05) as the meaning of "parses in the requested mode". No axioms.',
    design='DESIGN.md section 4 C19'),
 }
